@@ -124,12 +124,19 @@ def exec (w : W) (t : List String) : W × String × Option Nat :=
     match getEv w (n ev) with
     | some e => ({ w with events := w.events ++ [{ e with n := n nn, ts := n ts, idnum := n idnum }] }, s!"ev={n nn}", none)
     | none => (w, "bad-ref", none)
+  | ["retag", ev, j, nn, ts, idnum] =>
+    -- the same ciphertext under the nostr group id client j holds now (the `h` tag is not authenticated)
+    match getEv w (n ev), getCl w (n j) with
+    | some e, some cl =>
+      if !cl.hasGroup then (w, "err:9", none) else
+      ({ w with events := w.events ++ [{ e with n := n nn, ts := n ts, idnum := n idnum, tag := cl.g.recNid }] }, s!"ev={n nn}", none)
+    | _, _ => (w, "bad-ref", none)
   | ["advremove", c, j, nn, ts, idnum] =>
     -- a member's Remove commit built with OpenMLS directly: published, not recorded or staged at the sender
     match getCl w (n c) with
     | some cl =>
       if !cl.hasGroup then (w, "err:9", some (n c)) else
-      ({ w with events := w.events ++ [{ n := n nn, ts := n ts, idnum := n idnum, cipher := n nn, sender := n c, path := cl.g.path, kind := .commit (.removeLeavers [n j]) [] }] }, s!"ev={n nn}", some (n c))
+      ({ w with events := w.events ++ [{ n := n nn, ts := n ts, idnum := n idnum, cipher := n nn, sender := n c, path := cl.g.path, kind := .commit (.removeLeavers [n j]) [], tag := cl.g.recNid }] }, s!"ev={n nn}", some (n c))
     | none => (w, "bad-client", none)
   | ["fp", c] => (w, "fp", some (n c))
   | _ => (w, "bad-op", none)
